@@ -77,11 +77,13 @@ JudgeOp(r, line) ==
   \* C01: the call returned normally
   /\ (On("C01") /\ r.panic) => Report("panic", "C01", line, r, {"panic"}, [msg |-> r.msg])
   \* C09: the state after every operation is well-formed; display() returns L rows
-  \* (a clause is reported when it becomes false, not again while it stays false)
-  /\ (On("C09") /\ ~r.panic /\ postOK
-        /\ WellFormedBad(post, r.post.cols) \ (IF HasScreen(st) /\ Shape(st) THEN WellFormedBad(st, r.post.cols) ELSE {}) # {})
-        => Report("illformed", "C09", line, r,
-                  WellFormedBad(post, r.post.cols) \ (IF HasScreen(st) /\ Shape(st) THEN WellFormedBad(st, r.post.cols) ELSE {}),
+  \* (a clause is reported when it becomes false, not again while it stays false; colours are
+  \* checked on the rows this event changed)
+  /\ LET changed == IF r.post.full THEN 1..post.L ELSE { r.post.gd[i][1] + 1 : i \in 1..Len(r.post.gd) }
+         newbad == (WellFormedBadCheap(post) \ (IF HasScreen(st) /\ Shape(st) THEN WellFormedBadCheap(st) ELSE {}))
+                   \cup (IF ColoursOKRows(post, r.post.cols, changed) THEN {} ELSE {"colour"})
+     IN (On("C09") /\ ~r.panic /\ postOK /\ newbad # {})
+        => Report("illformed", "C09", line, r, newbad,
                   [x |-> post.x, y |-> post.y, L |-> post.L, C |-> post.C, mar |-> post.mar,
                    dirty |-> SetToSeq(post.dirty)])
   /\ (On("C09") /\ ~r.panic /\ ev.op = "display" /\ Len(disp) # post.L)
